@@ -1,7 +1,7 @@
 (* Props/C06.v — Rollback restores exactly the state of the chosen snapshot.
    Statements only; proofs in Proofs/RollbackP.v.  [rollback w id] mirrors apply.rs::rollback
    (state-tree branch; snapshots in id order, [id] = ordinal). *)
-From AP Require Import Base.Str Gen.Tables Model.Deploy Proofs.DeployP Proofs.ConvergeP Proofs.RollbackP Proofs.HistoryP Proofs.WfDec Proofs.ReplanP.
+From AP Require Import Base.Str Gen.Tables Model.Deploy Proofs.DeployP Proofs.ConvergeP Proofs.RollbackP Proofs.HistoryP Proofs.WfDec Proofs.ReplanP Proofs.HeadP.
 Open Scope N_scope.
 
 (* rollback records and unknown ids are rejected as targets without any write *)
@@ -98,6 +98,38 @@ Theorem C06_replan_any_records : forall w roots D x,
   plan (files x) D (managed_for_plan x roots None) = [].
 Proof. intros w roots D x HD HM w' Hall Hx. exact (replan_empty_any_records w roots D HD HM Hall x Hx). Qed.
 Print Assumptions C06_replan_any_records.
+
+(* the records after a rollback: the replayed head IS the chosen snapshot and the latest deployment record is the
+   rollback's own (listing what the chosen snapshot lists) — so an immediately following rollback deletes relative to
+   the first one's target, and the manifest-less fallback of the next plan sees the rolled-back-to file list *)
+Theorem C06_rollback_records : forall w id w',
+  rollback w id = (RbOk, w') ->
+  exists tgt rec,
+    nth_error (snaps w) id = Some tgt /\ sn_kind tgt <> KRollback /\
+    snaps w' = snaps w ++ [rec] /\ sn_kind rec = KRollback /\ sn_to rec = Some id /\ sn_managed rec = sn_managed tgt /\
+    head_of (snaps w') = Some id /\ latest_dr (snaps w') = Some rec.
+Proof. exact rollback_records. Qed.
+Print Assumptions C06_rollback_records.
+
+Theorem C06_rollback_after_rollback : forall w a w1 b w2,
+  rollback w a = (RbOk, w1) -> rollback w1 b = (RbOk, w2) ->
+  exists ta tb, nth_error (snaps w) a = Some ta /\ nth_error (snaps w1) b = Some tb /\
+    files w2 = delete_unlisted (restore_manifests (restore_managed (files w1) (sn_managed tb)) (sn_changes tb))
+                               (sn_managed ta) (sn_managed tb).
+Proof. exact rollback_after_rollback. Qed.
+Print Assumptions C06_rollback_after_rollback.
+
+(* non-vacuity: S0 {a, b}, S1 {a}; rollback to S0 brings b back, rollback to S1 removes it again *)
+Example C06_two_rollbacks :
+  let rc := Build_root (s "codex") [s "h"; s "codex"] false in
+  let pa := [s "h"; s "codex"; s "a.md"] in let pb := [s "h"; s "codex"; s "b.md"] in
+  let w0 := Build_world (fun _ => None) [] in
+  let w1 := snd (snd (deploy_cmd SJsonYes true false None w0 [rc] [Build_dfile (s "codex") pa 1 []; Build_dfile (s "codex") pb 2 []])) in
+  let w2 := snd (snd (deploy_cmd SJsonYes true false None w1 [rc] [Build_dfile (s "codex") pa 1 []])) in
+  let w3 := snd (rollback w2 0) in let w4 := snd (rollback w3 1) in
+  files w2 pb = None /\ fst (rollback w2 0) = RbOk /\ files w3 pb = Some (FBytes 2) /\
+  fst (rollback w3 1) = RbOk /\ files w4 pb = None /\ files w4 pa = Some (FBytes 1) /\ head_of (snaps w4) = Some 1%nat.
+Proof. vm_compute. repeat split; reflexivity. Qed.
 
 (* the FULL statement of the property — every path touched by any deployment after S has the
    content it had right after S — is refuted by the faithful model: a path can be touched after S
